@@ -9,7 +9,10 @@
    Why the fuel suffices (since the /repo fix of the stray seen.remove, finding C07-topsort-recursion): every
    get_* collector starts with `if seen.insert(name)` and the names that can be met are keys of `types`; a
    nested call either finds its name in `seen` (and returns at once) or adds a new key to `seen` - so the
-   nesting depth is bounded by the number of keys not yet seen, plus one. *)
+   nesting depth is bounded by the number of keys not yet seen, plus one.  The recursion of
+   get_dependencies_from_type into the arguments of a generic type (every argument, at any depth, since the
+   repair of its Generic arm) is structural on the type and consumes no fuel: it happens at the SAME `seen`
+   set, after the generic type's own name has been removed again. *)
 From Coq Require Import String List Arith Bool Lia Permutation.
 From TS Require Import Model.Str Model.Outcome Model.Types Model.TopsortAlgo Model.Topsort.
 From TS Require Import Spec.C07BackSpec.
@@ -116,17 +119,9 @@ Lemma deps_type_tot t : forall seen, cnt seen < f -> tot seen (deps_type types r
 Proof.
   induction t as [id|id ps IH|x IH|x n IH|x IH|k v IHk IHv|x IH|p] using rtype_ind'; intros seen Hc.
   - cbn [deps_type]. now apply visit_name_tot.
-  - intros s Hs. cbn [deps_type]. destruct (types id) as [it|] eqn:ET; [|eauto].
-    unfold seen_insert. destruct (mem_str id (dseen s)) eqn:Em; [eauto|]. cbv iota beta.
-    destruct (rec_total it (res_push id {| dres := dres s; dseen := id :: dseen s |})) as (s2 & E2 & H2).
-    + cbn [res_push dseen]. rewrite Hs. pose proof (cnt_cons_le id seen). lia.
-    + left. cbn [res_push dseen]. rewrite (types_name id it ET). unfold mem_str. cbn [existsb]. rewrite str_eqb_refl. reflexivity.
-    + rewrite E2. cbn [obind]. cbn [res_push dseen] in H2.
-      destruct (tot_fold (id :: dseen s) (fun p => visit_name types rec (rtype_id p)) ps) with (s := s2) as (s3 & E3 & H3).
-      * intros p _. apply visit_name_tot. rewrite Hs. pose proof (cnt_cons_le id seen). lia.
-      * exact H2.
-      * cbv beta in E3. rewrite E3. cbn [obind]. eexists. split; [reflexivity|]. cbn [seen_remove dseen]. rewrite H3.
-        rewrite t_filter_drop_fresh; [exact Hs|exact Em].
+  - intros s Hs. cbn [deps_type]. destruct (visit_name_tot id seen Hc s Hs) as (s1 & E1 & H1). rewrite E1. cbn [obind].
+    apply (tot_fold seen (deps_type types rec) ps); [|exact H1].
+    intros p Hp. rewrite Forall_forall in IH. now apply IH.
   - cbn [deps_type]. now apply IH.
   - cbn [deps_type]. now apply IH.
   - cbn [deps_type]. now apply IH.
@@ -229,13 +224,10 @@ Lemma deps_type_pres t : pres (deps_type types rec t).
 Proof.
   induction t as [id|id ps IH|x IH|x n IH|x IH|k v IHk IHv|x IH|p] using rtype_ind'; try (cbn [deps_type]; assumption).
   - cbn [deps_type]. apply visit_name_pres.
-  - intros s s' K E. cbn [deps_type] in E. destruct (types id) as [it|] eqn:ET; [|injection E as <-; exact K].
-    unfold seen_insert in E. destruct (mem_str id (dseen s)); [injection E as <-; exact K|]. cbv iota beta in E.
-    destruct (rec it _) as [s2|] eqn:E2; cbn [obind] in E; [|discriminate].
-    destruct (fold_left _ ps (Some s2)) as [s3|] eqn:E3; cbn [obind] in E; [|discriminate]. injection E as <-.
-    unfold keyed, seen_remove. cbn [dres].
-    eapply (pres_fold (fun p => visit_name types rec (rtype_id p)) ps); [intros p _; apply visit_name_pres|exact E3|].
-    intros s0 [= <-]. eapply rec_pres; [|exact E2]. eapply keyed_push; [exact ET|exact K].
+  - intros s s' K E. cbn [deps_type] in E. destruct (visit_name types rec id s) as [s1|] eqn:E1; cbn [obind] in E; [|discriminate].
+    rewrite Forall_forall in IH.
+    eapply (pres_fold (deps_type types rec) ps); [intros p Hp; now apply IH|exact E|].
+    intros s0 [= <-]. eapply visit_name_pres; eassumption.
   - intros s s' K E. cbn [deps_type] in E. destruct (deps_type types rec k s) as [s1|] eqn:E1; cbn [obind] in E; [|discriminate].
     eapply IHv; [eapply IHk; eassumption|exact E].
   - intros s s' K E. cbn [deps_type] in E. injection E as <-. exact K.
